@@ -19,6 +19,10 @@ func main() {
 	os.MkdirAll(*out, 0o755)
 	meta.Prop, meta.Tier, meta.Seed = *prop, *tier, *seed
 	writeOpTable(*out, opTable())
+	if os.Getenv("VGEN_CHILD") == "c18bytes" {
+		childC18Bytes(*out, *tier, *seed)
+		return
+	}
 	switch *prop {
 	case "C15":
 		genC15(*out, *tier, *seed)
